@@ -267,7 +267,7 @@ async fn handle(resolver: Resolver, sid: u64, e: Ending, p: Probe, second_drop: 
     }
 }
 
-async fn server(net: sim::Net, p: Probe, sp: Spawner, endings: Arc<BTreeMap<u64, Ending>>, second_drop: Arc<BTreeMap<u64, Signal>>, poll_variant: bool) {
+async fn server(net: sim::Net, p: Probe, sp: Spawner, endings: Arc<BTreeMap<u64, Ending>>, second_drop: Arc<BTreeMap<u64, Signal>>, poll_variant: bool, own_shutdown: Option<(usize, usize)>) {
     let r = p
         .call("s:conn", "build", h3::server::builder().build::<_, Bytes>(SimConn::<Bytes>::new(&net, SERVER)), |r| match r {
             Ok(_) => Out::Ok,
@@ -275,7 +275,20 @@ async fn server(net: sim::Net, p: Probe, sp: Spawner, endings: Arc<BTreeMap<u64,
         })
         .await;
     let Ok(mut conn) = r else { return };
+    let mut accepted = 0usize;
+    let mut own_shutdown = own_shutdown;
     loop {
+        // the server may begin a graceful shutdown of its own with a grace interval: requests
+        // accepted within the interval are handed out like any other
+        if let Some((after, n)) = own_shutdown {
+            if accepted >= after {
+                own_shutdown = None;
+                let r = p.call("s:conn", "shutdown", conn.shutdown(n), |r| match r { Ok(()) => Out::Ok, Err(e) => Out::ConnErr(ConnErr::from_h3(e)) }).await;
+                if r.is_err() {
+                    break;
+                }
+            }
+        }
         // two public ways of accepting: `accept()`, or `poll_accept_request_stream` +
         // `create_resolver` (what h3-webtransport's session loop uses)
         let r = if poll_variant {
@@ -299,6 +312,7 @@ async fn server(net: sim::Net, p: Probe, sp: Spawner, endings: Arc<BTreeMap<u64,
         };
         match r {
             Ok(Some(resolver)) => {
+                accepted += 1;
                 let sid = resolver.frame_stream.id().into_inner();
                 let e = endings.get(&sid).copied().unwrap_or(Ending::NormalFinish);
                 let sd = second_drop.get(&sid).cloned().unwrap_or_default();
@@ -354,7 +368,24 @@ fn check_history(endings: &[Ending], goaway_pos: usize, seed: u64, rep: &mut Rep
     let mut main: Vec<ScriptStep> = Vec::new();
     for i in 0..=ids.len() {
         if i == goaway_pos {
-            main.push(raw::step_write(CLIENT, ctrl, rf::varint_frame(rf::T_GOAWAY, 0)));
+            // frames a server ignores may precede the GOAWAY (same write or an earlier one)
+            let noise: Vec<u8> = match rng.below(6) {
+                0 => rf::varint_frame(rf::T_MAX_PUSH_ID, 7),
+                1 => rf::varint_frame(rf::T_CANCEL_PUSH, 0),
+                2 => rf::frame(rf::unknown_type(0), b"ext"),
+                _ => vec![],
+            };
+            if !noise.is_empty() {
+                rep.count("goaway_behind_an_ignored_control_frame");
+            }
+            if noise.is_empty() || rng.bool() {
+                let mut w = noise;
+                w.extend(rf::varint_frame(rf::T_GOAWAY, 0));
+                main.push(raw::step_write(CLIENT, ctrl, w));
+            } else {
+                main.push(raw::step_write(CLIENT, ctrl, noise));
+                main.push(raw::step_write(CLIENT, ctrl, rf::varint_frame(rf::T_GOAWAY, 0)));
+            }
         }
         if i < ids.len() {
             let g = gates[i].clone();
@@ -375,7 +406,13 @@ fn check_history(endings: &[Ending], goaway_pos: usize, seed: u64, rep: &mut Rep
     }
     let poll_variant = rng.chance(1, 3);
     rep.count(if poll_variant { "accept_api[poll_accept_request_stream + create_resolver]" } else { "accept_api[accept()]" });
-    sched.spawn("s:conn", server(net.clone(), probe.clone(), sched.spawner.clone(), emap, sigs.clone(), poll_variant));
+    // a quarter of the histories: the server itself begins a shutdown after some accepts, with a
+    // grace interval that lets the remaining requests of the history in
+    let own_shutdown = if rng.chance(1, 4) { Some((rng.usize(endings.len() + 1), endings.len() + 1)) } else { None };
+    if own_shutdown.is_some() {
+        rep.count("histories_with_a_server_side_shutdown");
+    }
+    sched.spawn("s:conn", server(net.clone(), probe.clone(), sched.spawner.clone(), emap, sigs.clone(), poll_variant, own_shutdown));
     let end = sched.run(1_000_000);
     rep.sig(hash64(&(endings, goaway_pos, sched.sig)));
     rep.sig_in("interleaving_signatures", sched.sig);
